@@ -129,7 +129,9 @@ def run_confidence(case):
     with core.scratch("c03") as d:
         tabs, paths, scores = [], [], []
         for ci in range(case["ncoll"]):
-            tab = psm.psm_table(rng, n_spectra=int(rng.integers(60, 400)), mult_max=int(rng.integers(2, 7)),
+            small = case["chunk"] == 1
+            tab = psm.psm_table(rng, n_spectra=int(rng.integers(30, 70) if small else rng.integers(60, 400)),
+                                mult_max=int(rng.integers(2, 7)),
                                 key_cols=tuple(rng.choice([("ExpMass",), ("filename", "ExpMass"), ("ret_time",)][:]).tolist()) if False else
                                 [("ExpMass",), ("filename", "ExpMass"), ("ret_time", "ExpMass")][case["index"] % 3],
                                 n_files=2, file_index=ci, levels=tuple(case["levels"]), with_rid=False,
@@ -150,6 +152,7 @@ def run_confidence(case):
         with core.chunk_sizes(**sizes):
             c = pipeline.run_confidence(ds, [s.copy() for s in scores], d / "out", prefixes=prefixes, decoys=case["decoys"],
                                         deduplication=case["dedup"], do_rollup=case["rollup"], file_root=root, rng=5,
+                                        peps_algorithm=["qvality", "kde_nnls", "kde_nnls"][case["index"] % 3],
                                         max_workers=int(rng.choice([1, 3])))
         extra = {k: case[k] for k in ("dedup", "rollup", "decoys", "ncoll", "prefixes", "fmt", "chunk", "levels")}
         extra["ties"] = ties
